@@ -407,6 +407,7 @@ func runC11(c *Ctx) {
 }
 
 func runC12(c *Ctx) {
+	refilterAtParentClose(c)
 	n := 50
 	if !c.Quick() {
 		n = 5000
